@@ -670,9 +670,22 @@ def run_header_guards(P, rep):
         for ev, n in disp.calls(cn):
             def _reads_flag(cond):
                 return any(y[0] == 'm' and y[1] in flags for y in subexprs(cond))
-            guards = [rv for rv in disp.events(('ret',)) if rv['l'] < ev['l'] and any(k == 'if' and c is not None and _reads_flag(c) for k, c, l in disp.ctl_chain(rv)[:1]) and
-                      disp.ev_dominates(next(iter([x for x in disp.events() if x['l'] == disp.ctl_chain(rv)[0][2]]), rv), ev)]
-            simple = [rv for rv in disp.events(('ret',)) if rv['l'] < ev['l'] and ev['l'] - rv['l'] < 40 and any(k == 'if' and c is not None and _reads_flag(c) for k, c, l in disp.ctl_chain(rv)[:1])]
+            # an `if` whose (whole) condition reads the flag, under which an error return sits, and whose head dominates the call
+            simple = []
+            for rv in disp.events(('ret',)):
+                v = strip(rv.get('e')) if rv.get('e') is not None else None
+                if v is not None and v[0] == 'l' and v[1] == 0:
+                    continue
+                ch = disp.ctl_chain(rv)
+                if not ch or ch[0][0] != 'if' or ch[0][1] is None or not _reads_flag(ch[0][1]):
+                    continue
+                # with short-circuit operators the condition is spread over several blocks: the block that evaluates the operand
+                # reading the flag carries a sub-tree of the `if` condition
+                whole = pstr(ch[0][1])
+                heads = [bid for bid, blk in disp.blocks.items() if blk.get('cond') is not None and _reads_flag(blk['cond']) and
+                         blk.get('fullcond') is not None and pstr(blk['fullcond']) in whole]
+                if any(h != ev['b'] and disp.block_dominates(h, ev['b']) for h in heads):
+                    simple.append(rv)
             ok = bool(simple)
             rep.ob('C10.SEQFIRST', '%s@%d' % (cn, ev['l']), ok, disp.loc(ev),
                    ('%s is reached only after a test of %s with an error exit' % (cn, sorted(fl.split('.')[1] for fl in flags))) if ok else
